@@ -94,6 +94,19 @@ def blank_replace(rng, text):
     return offs[a], offs[b], rng.choice([" ", "  ", "\t", " \t ", "\n", "\n\n", " \n"])
 
 
+def random_edit(rng, text):
+    """any small edit (tools/editgen.py: token-aligned and arbitrary ranges, snippets such as `/`, `'`, `0x`, `;`, a statement):
+    characters typed directly next to a token are where the incremental LEXER's look-ahead matters"""
+    cs, ce, ins = editgen.random_change(rng, text)
+    b = text.encode("utf-8")
+    # keep CR LF pairs intact (LSP positions cannot address their middle)
+    if 0 < cs < len(b) and b[cs - 1:cs] == b"\r" and b[cs:cs + 1] == b"\n":
+        cs -= 1
+    if 0 < ce < len(b) and b[ce - 1:ce] == b"\r" and b[ce:ce + 1] == b"\n":
+        ce += 1
+    return cs, max(cs, ce), ins
+
+
 def append_decl(rng, text):
     offs = editgen.byte_offsets(text)
     return offs[len(text)], offs[len(text)], rng.choice(["\n// appended\nproc extra_p() { }\n", "\ntype extra_t = int;\n", "\n// tail\n"])
@@ -111,9 +124,9 @@ def gen_histories(rng, n):
         for _ in range(rng.choice([1, 1, 2, 3])):
             chs = []
             for _ in range(rng.choice([1, 1, 2])):
-                kind = rng.choice(["comment", "comment", "neutral", "append", "blank", "blank"])
+                kind = rng.choice(["comment", "comment", "neutral", "append", "blank", "blank", "random", "random"])
                 e = (comment_edit(rng, cur) if kind == "comment" else c03hist.neutral(rng, cur) if kind == "neutral"
-                     else blank_replace(rng, cur) if kind == "blank" else append_decl(rng, cur))
+                     else blank_replace(rng, cur) if kind == "blank" else random_edit(rng, cur) if kind == "random" else append_decl(rng, cur))
                 if e is None:
                     continue
                 shape.append(kind)
